@@ -154,8 +154,31 @@ def to_int_status_keys(doc: dict) -> dict:
     return d
 
 
+FORMER_F64_TAGS = ["request", "close", "transport", "base-url", "self"]
+
+
+def former_f64_doc(i: int = 0) -> dict:
+    """A generated document whose operations carry the tags that used to collide with APIClient's own members (F64, repaired):
+    every one of them must be a working property of APIClient (`request_`, `close_`, `transport_`, `base_url_`, `self_`)."""
+    k = 0
+    while True:
+        r = rng(f"C07:former-F64:{i}:{k}")
+        doc = gs.gen_spec(r, gs.Opts(mainstream=True, max_ops=8, multi_tags=False, always_opid=True, streaming=False))
+        ops = [op for it in doc["paths"].values() for m, op in it.items() if m != "parameters" and isinstance(op, dict)]
+        if len(ops) >= len(FORMER_F64_TAGS):
+            break
+        k += 1
+    for j, op in enumerate(ops):
+        op["tags"] = [FORMER_F64_TAGS[(j + i) % len(FORMER_F64_TAGS)]]
+    return doc
+
+
 def build_cases(ctx) -> list[dict]:
     cases = []
+    # the former witnesses of F64 (repaired), under the three strategies
+    for i in range(ctx.budget(2, 8)):
+        cases.append({"id": f"c07-former-F64-{i}", "doc": former_f64_doc(i), "strategy": "operationId", "strategies": ["operationId", "clean", "path"],
+                      "fmt": ["json", "yaml"][i % 2], "dup_ids": False, "int_status_keys": False})
     n = ctx.budget(30, 300)
     for i in range(n):
         r = rng(f"C07:{i}")
@@ -183,11 +206,17 @@ def check(run: Run, ctx) -> None:
         except ModuleNotFoundError:
             run.notes.append(f"{mod} not present yet")
     g.run_corr(run, ctx, "vf.corr.client", "ClientGen (APIClient properties per tag group vs Pog.ClientGen)", quick=0.3, thorough=3.0)
+    # F64 (a tag named like one of APIClient's own members) is repaired: the classes property-shadowed-by-method, tag-client-unreachable,
+    # property-named-like-instance-attribute, api-client-construction-fails, private-attr-collision, duplicate-property-name and
+    # mock-client-self-argument map to no finding - a recurrence is a violation (the oracle keeps generating those tags).
+    # The `-nonascii` classes are what is left of them: collisions BETWEEN two tag clients that only non-ASCII tags produce (`aé`/`a`,
+    # `ké`/`_K`; attributed by the tags involved in the collision).  They are reported as a new finding by the F64 work package and are
+    # not listed in known_findings.json yet ("-unlisted": counted in the evidence; to be mapped to the finding's id once it is listed).
     g.run_oracle(run, ctx, g.Informational(known), "vf.corr.client", "client.py / mock_client.py skeletons on the real ClientVisitor / MocksEmitter",
-                 {k: (v if v in ['F64'] else '-' + v) for k, v in {"mock-groups-by-first-raw-tag": "F23", "mock-client-props-order": "F23", "mock-client-props-differ": "F23", "mock-tag-case-variants-collide": "F23",
+                 {k: (v if v.startswith("-") else '-' + v) for k, v in {"mock-groups-by-first-raw-tag": "F23", "mock-client-props-order": "F23", "mock-client-props-differ": "F23", "mock-tag-case-variants-collide": "F23",
                   "mock-client-duplicate-argument": "F23", "mock-client-empty-init": "F31", "property-name-not-identifier": "F29", "client-syntax-error": "F29",
-                  "mock-client-syntax-error": "F29", "property-shadowed-by-method": "F64", "tag-client-unreachable": "F64", "property-named-like-instance-attribute": "F64",
-                  "api-client-construction-fails": "F64", "private-attr-collision": "F64", "duplicate-property-name": "F64", "mock-client-self-argument": "F64"}.items()}, quick=0.5, thorough=4.0)
+                  "mock-client-syntax-error": "F29", "duplicate-property-name-nonascii": "-unlisted", "private-attr-collision-nonascii": "-unlisted",
+                  "api-client-construction-fails-nonascii": "-unlisted", "tag-client-unreachable-nonascii": "-unlisted"}.items()}, quick=0.5, thorough=4.0)
     run.cov["rule"] = (run.cov.get("rule") or "") + ("[e2e] random documents (0-3 tags per operation, absent / duplicated / FastAPI-style operationIds) x {JSON, YAML block, YAML flow, "
                        "YAML with merge keys (<<: *anchor), YAML with unquoted integer status keys} x the 3 naming strategies generated one after the other in ONE process "
                        "(random order) -> each generated package imported in a fresh interpreter -> coroutine methods per tag client counted against the document's "
